@@ -32,6 +32,25 @@ def target(p, q=2):
     return [p, q]
 
 
+# a three-level chain: context arguments given to the call at the top key the calls beneath it too
+@m.memento_function(cluster="va", version="1")
+def leaf(a):
+    log("Body", "leaf", {"a": a})
+    return ["leaf", 1]
+
+
+@m.memento_function(cluster="va", version="1")
+def mid(a):
+    log("Body", "mid", {"a": a})
+    return ["mid", leaf(a)]
+
+
+@m.memento_function(cluster="va", version="1")
+def top(a):
+    log("Body", "top", {"a": a})
+    return ["top", mid(a)]
+
+
 SIGS = {
     "s1": (s1, ["a"], [], {}),
     "s2": (s2, ["a", "b"], [], {}),
